@@ -102,24 +102,38 @@ def affLine (l : String) : Option (String × List Float) :=
     if t = "#" then none
     else some (t, (rest.map parseDecimal).takeWhile Option.isSome |>.filterMap id)
 
-/-- the reader: `size` is the size of the pre-sized (zero) vector; every line must carry
-`K` values and a layer id below the number of layers, and there must be exactly that many
-lines; the diagonal entry `(g,g)` of layer `a` goes to flat position `Gen.readerIdx` -/
-def readAffinity (assort : Bool) (K size : Nat) (content : String) : Except String (Array Float) := do
-  let perLayer := if assort then K else K * K
-  if K = 0 || size % perLayer ≠ 0 then throw "size"
-  let L := size / perLayer
+/-- second pass, one line: the `g`-th value of the line of layer `layer` is written to flat
+position `Gen.readerIdx` (the regenerated index expression of app_utils.cpp) -/
+def placeRow {α : Type} (assort : Bool) (K : Nat) (w : Array α) (layer : Nat) (vals : List α) : Array α :=
+  vals.zipIdx.foldl (fun w p => w.setIfInBounds (Gen.readerIdx assort K p.2 layer) p.1) w
+
+/-- second pass, all lines in file order, starting from the pre-sized zero vector -/
+def placeRows {α : Type} (assort : Bool) (K : Nat) (w0 : Array α) (rows : List (Nat × List α)) : Array α :=
+  rows.foldl (fun w r => placeRow assort K w r.1 r.2) w0
+
+/-- why a file is rejected -/
+inductive AffErr where
+  | size | columns | layers | layerId
+deriving DecidableEq, Repr
+
+/-- entries of one layer in the flat vector -/
+def perLayer (assort : Bool) (K : Nat) : Nat := if assort then K else K * K
+
+/-- the shape checks: every line carries `K` values, there are exactly `L = size / perLayer` lines,
+every layer id is a natural below `L` -/
+def checkRows (assort : Bool) (K size : Nat) (rows : List (String × List Float)) : Except AffErr Nat :=
+  if K = 0 || size % perLayer assort K ≠ 0 then .error .size
+  else if rows.any (fun r => r.2.length ≠ K) then .error .columns
+  else if rows.length ≠ size / perLayer assort K then .error .layers
+  else if rows.any (fun r => !isNatTok r.1 || r.1.toNat! ≥ size / perLayer assort K) then .error .layerId
+  else .ok (size / perLayer assort K)
+
+/-- the reader: `size` is the size of the pre-sized (zero) vector -/
+def readAffinity (assort : Bool) (K size : Nat) (content : String) : Except AffErr (Array Float) :=
   let rows := (fileLines content).filterMap affLine
-  if rows.any (fun r => r.2.length ≠ K) then throw "columns"
-  if rows.length ≠ L then throw "layers"
-  let mut w : Array Float := Array.replicate size 0.0
-  for r in rows do
-    if !isNatTok r.1 then throw "layerid"
-    let layer := r.1.toNat!
-    if layer ≥ L then throw "layerid"
-    for (x, g) in r.2.zipIdx do
-      w := w.setIfInBounds (Gen.readerIdx assort K g layer) x
-  return w
+  match checkRows assort K size rows with
+  | .error e => .error e
+  | .ok _ => .ok (placeRows assort K (Array.replicate size 0.0) (rows.map fun r => (r.1.toNat!, r.2)))
 
 /-! ### option scanning (multitensor.cpp:28-141, app_utils.cpp:22-35) -/
 
@@ -199,7 +213,9 @@ def cliCall (o : Opts) (adjContent : String) (affContent : Option String) :
   let size := if o.assortative then o.k * nL else o.k * o.k * nL
   let wfile : Bool := o.affinity != ""
   let aff ← match wfile, affContent with
-    | true, some c => readAffinity o.assortative o.k size c
+    | true, some c => match readAffinity o.assortative o.k size c with
+                      | .ok w => pure w
+                      | .error _ => throw "affinity file rejected"
     | true, none => throw "cannot open affinity file"
     | false, _ => pure (Array.replicate size 0.0)
   let sel := Gen.cliSelection o.directed.toNat o.assortative.toNat wfile.toNat
